@@ -73,6 +73,59 @@ def threshold_history(rng, tag, which):
     return ops, g
 
 
+def with_dumpm(ops, h="h0"):
+    """after every op that can change the store: the raw arrays of the column store (library) / of the extracted L2 model"""
+    out = []
+    for o in ops:
+        out.append(o)
+        t = o.split()
+        if t[0] not in ("Q", "DUMP", "DUMPM", "DUMPMF", "DUMPI") and len(t) > 1 and t[1] == h:
+            out.append("DUMPM %s" % h)
+    return out
+
+
+def reloc_history(rng, tag):
+    """relocation-heavy histories on a small problem: few columns, rows with entries in many (distinct) columns, coefficient
+    edits that create new entries, deletes that leave holes - columns fill their gaps, move behind the used part, and the
+    array is rebuilt (matrix_addrow_end) once the free tail (EXTRA_MAT = 1000 slots) is used up"""
+    ops = ["CREATE h0 p MIN"]
+    n = rng.randint(3, 12)
+    m = 0
+    small = lambda: str(rng.choice([1, 2, 3, -1, -2, 5])) if rng.random() < 0.8 else "%d/%d" % (rng.randint(-9, 9), rng.randint(1, 7))
+    for _ in range(n):
+        ops.append("NEWCOL h0 %s 0 inf -" % small())
+    target = rng.randint(120, 260)
+    while len(ops) < target:
+        r = rng.random()
+        if r < 0.40 or m == 0:
+            k = rng.randint(max(1, n // 2), n) if n else 0
+            cols = rng.sample(range(n), k) if n else []
+            ops.append("ADDROW h0 %s %s - %d%s" % (small(), rng.choice("LGE"), len(cols), "".join(" %d %s" % (j, small()) for j in cols)))
+            m += 1
+        elif r < 0.65 and n:
+            ops.append("CHGCOEF h0 %d %d %s" % (rng.randrange(m), rng.randrange(n), small()))
+        elif r < 0.75:
+            k = rng.randint(0, min(m, 6))
+            rows = rng.sample(range(m), k)
+            ops.append("ADDCOL h0 %s 0 inf - %d%s" % (small(), len(rows), "".join(" %d %s" % (i, small()) for i in rows)))
+            n += 1
+        elif r < 0.82 and m > 1:
+            ops.append("DELROW h0 %d" % rng.randrange(m)); m -= 1
+        elif r < 0.86 and m > 3:
+            rows = rng.sample(range(m), rng.randint(2, 3))
+            ops.append("DELROWS h0 %d %s" % (len(rows), " ".join(map(str, rows)))); m -= len(rows)
+        elif r < 0.90 and n > 3:
+            ops.append("DELCOL h0 %d" % rng.randrange(n)); n -= 1
+        elif r < 0.93:
+            ops.append("NEWROW h0 %s %s -" % (small(), rng.choice("LGER"))); m += 1
+        elif r < 0.96 and m:
+            ops.append("CHGSENSE h0 %d %s" % (rng.randrange(m), rng.choice("LGER")))
+        else:
+            ops.append("NEWCOL h0 %s 0 inf -" % small()); n += 1
+    ops += ["Q h0 counts", "DUMP h0"]
+    return ops
+
+
 SEED_LP = "LOAD h0 p MIN 2 2 a 1 0 inf 2 0 2 1 1 b -1 -inf 4 1 0 3 r0 L 4 r1 G 1"
 ALPHABET = [
     "NEWCOL h0 3 0 1 -", "ADDCOL h0 1 0 inf c1 2 0 1 0 2", "ADDCOL h0 2 1 1 x3 1 1 0",
@@ -97,6 +150,7 @@ def main():
     for f in sorted(glob.glob(os.path.join(VERIF, "corpus", "C06", "*.txt"))):
         ops = [l.strip() for l in open(f) if l.strip() and not l.startswith("#") and not l.startswith("CASE") and l.strip() != "RESET"]
         cid = "c_" + os.path.basename(f)[:-4]
+        ops = with_dumpm(ops)
         cases.append((cid, ops))
         meta[cid] = ("corpus", None)
     # (a) random histories from empty and from loaded problems
@@ -104,29 +158,38 @@ def main():
     for i in range(nrand):
         start = "empty" if i % 3 == 0 else (rng.randint(0, 6), rng.randint(0, 6))
         ops, g = history(rng, "a%d_" % i, rng.randint(5, 60 if T else 40), start)
+        ops = with_dumpm(ops)
         cases.append(("r%d" % i, ops))
         meta["r%d" % i] = ("random", g)
     # (b) growth thresholds
     for i, which in enumerate(["rows", "cols", "nz"] * (6 if T else 1)):
         ops, g = threshold_history(rng, "t%d_" % i, which)
+        ops = with_dumpm(ops)
         cases.append(("t%d" % i, ops))
         meta["t%d" % i] = ("threshold-" + which, g)
+    # (b2) relocation-heavy histories (columns move behind the used part, holes, rebuilds of the array)
+    for i in range(60 if T else 6):
+        cases.append(("m%d" % i, with_dumpm(reloc_history(rng, "m%d_" % i))))
+        meta["m%d" % i] = ("relocation", None)
     # (c) bounded-exhaustive: every history of length <= L over the alphabet on the seed LP
     L = 3 if T else 2
     k = 0
     for n in range(1, L + 1):
         for combo in itertools.product(ALPHABET, repeat=n):
-            ops = [SEED_LP]
+            ops = [SEED_LP, "DUMPM h0"]
             for o in combo:
                 ops.append(o)
                 ops.append("DUMP h0")
+                ops.append("DUMPM h0")
             ops += OBSERVE
             cases.append(("e%d" % k, ops))
             meta["e%d" % k] = ("exhaustive", None)
             k += 1
     M, crec, mrec, crashes = run_cases_both(cases, per_case_timeout=120)
     byid = dict(cases)
-    stats = dict(ops=0, dumps=0, by_family={}, diffs={}, deferred_to_C07=0, max_rows=0, max_cols=0, max_nz=0)
+    stats = dict(ops=0, dumps=0, by_family={}, diffs={}, deferred_to_C07=0, max_rows=0, max_cols=0, max_nz=0,
+                 raw_dumps=0, raw_digest_lines=0, wf_true=0, wf_skipped=0, max_matsize=0, matsize_changes=0, relocations=0, model_faults=0)
+    wf_false = []
     ophist = {}
     shrunk_n = {}
     for cid, ops in cases:
@@ -139,6 +202,30 @@ def main():
             ck.violation("missing_%s.txt" % cid, "\n".join(ops) + "\n", "case produced no output on one side %s" % [c for c in crashes if c[0] == cid][:1],
                          match=dict(kind="harness-crash"))
             continue
+        # the model's DUMPM block carries one extra line "WF <lwf_check of the model state>": strip and count it
+        prev = None
+        for k_, rec in enumerate(mrec[cid]):
+            if rec and rec[0] and rec[0][0] == "MAT":
+                stats["raw_dumps"] += 1
+                if len(rec[0]) > 1 and rec[0][1] in ("FAULT", "REJ"):
+                    stats["model_faults"] += 1
+                for l in list(rec):
+                    if l[0] == "WF":
+                        rec.remove(l)
+                        if l[1] == "true": stats["wf_true"] += 1
+                        elif l[1] == "skipped": stats["wf_skipped"] += 1
+                        else: wf_false.append((cid, k_))
+                    elif l[0] in ("IND", "VAL") and len(l) > 1 and l[1].startswith("#"):
+                        stats["raw_digest_lines"] += 1
+                hd = dict(x.split("=") for x in rec[0][1:] if "=" in x)
+                if "matsize" in hd:
+                    stats["max_matsize"] = max(stats["max_matsize"], int(hd["matsize"]))
+                    beg = [l for l in rec if l[0] == "BEG"]
+                    cur = (int(hd["matsize"]), beg[0][1:] if beg else [])
+                    if prev is not None:
+                        if prev[0] != cur[0]: stats["matsize_changes"] += 1
+                        stats["relocations"] += sum(1 for a, b in zip(prev[1], cur[1]) if a != b) if len(prev[1]) <= len(cur[1]) else 0
+                    prev = cur
         diffs = compare_case(ops, crec[cid], mrec[cid])
         if diffs and diffs[-1][1] == "missing" and not any(d[1] == "invalid-accepted" for d in diffs):
             # the library died on a history the model considers valid: shrink on "still crashes", report with the sanitizer's diagnosis
@@ -152,6 +239,9 @@ def main():
             small = shrink(prefix, still_crash, budget=40)
             crashed, sig = crash_signature(small)
             stats["diffs"]["crash"] = stats["diffs"].get("crash", 0) + 1
+            mo = records(run_m("CASE s\nRESET\n" + "\n".join(small + ["DUMPM h0"]) + "\n", M))[1].get("s", [])
+            pred = bool(mo) and mo[-1][0][:2] == ["MAT", "FAULT"]
+            stats.setdefault("crash_predicted_by_L2_model", []).append(pred)
             text = "C06: library crashed on a valid history at op `%s`: %s" % (small[-1][:80], sig)
             ck.violation("crash_%s.txt" % cid, "CASE replay\nRESET\n" + "\n".join(small) + "\n# %s\n" % text, text,
                          match=dict(kind="crash", site=crash_site(sig)))
@@ -188,15 +278,19 @@ def main():
             opkey = "counts" if kind == "nzcount" else (last[0] + ":" + last[2] if last[0] == "Q" and len(last) > 2 else last[0])
             ck.violation("%s_%s.txt" % (kind, cid), "CASE replay\nRESET\n" + "\n".join(small) + "\n# %s\n" % text, text,
                          match=dict(kind=kind, op=opkey))
-            if kind in ("dump", "payload", "valid-rejected", "missing"):
+            if kind in ("dump", "payload", "valid-rejected", "missing", "rawstore"):
                 break
+    for cid, k_ in wf_false[:3]:
+        ck.violation("wf_%s.txt" % cid, "CASE replay\nRESET\n" + "\n".join(byid[cid][:k_]) + "\n", "C06: the extracted L2 model reaches a state that violates its own "
+                     "representation invariant lwf_check (theorem WF-preservation or the extraction is broken) in case %s" % cid, match=dict(kind="model-wf"))
     ck.sample(dict(case="r0", script=byid["r0"][:12]))
     ck.sample(dict(case="e5", script=byid.get("e5", [])[:6]))
     if not pr["ok"]:
         ck.violation("proof.txt", pr["log"], "proof obligation(s) of Properties_C06.v no longer check: %s" % pr["failed"], no_input=not ck.violations)
     ck.cov["rule"] = ("op histories (random from empty / loaded problems, growth-threshold histories crossing 100 rows, 100 columns, 1000 non-zeros and "
-                      "shrinking again, all histories of length <= %d over a %d-op alphabet on a 2x2 seed LP); after every op the answer of the call and the "
-                      "canonical dump through the query API are compared with the extracted reference model; a case is non-trivial when at least one edit "
+                      "shrinking again, relocation-heavy histories on small problems, all histories of length <= %d over a %d-op alphabet on a 2x2 seed LP); after every op the answer of the call and the "
+                      "canonical dump through the query API are compared with the extracted reference model, and the raw arrays of the column store (matbeg, matcnt, matind, matval of live slots, "
+                      "matsize, matfree, matcolsize, structmap, rowmap, nzcount) with the arrays of the extracted L2 model (Store.Matrix) - equal entry by entry, long lines by FNV-1a digest; a case is non-trivial when at least one edit "
                       "succeeded; distinct by script text" % (L, len(ALPHABET)))
     ck.cov["evaluations"] = len(cases)
     ck.cov["ops_compared"] = stats["ops"]
@@ -204,15 +298,18 @@ def main():
     ck.cov["families"] = stats["by_family"]
     ck.cov["op_histogram_random"] = ophist
     ck.cov["diff_kinds"] = stats["diffs"]
-    ck.cov["max_sizes_reached"] = dict(rows=stats["max_rows"], cols=stats["max_cols"], nonzeros=stats["max_nz"])
+    ck.cov["max_sizes_reached"] = dict(rows=stats["max_rows"], cols=stats["max_cols"], nonzeros=stats["max_nz"], matsize=stats["max_matsize"])
+    ck.cov["raw_store"] = dict(dumps_compared=stats["raw_dumps"], long_lines_compared_by_digest=stats["raw_digest_lines"], model_states_satisfying_lwf_check=stats["wf_true"],
+                               lwf_check_skipped_large=stats["wf_skipped"], matsize_changes=stats["matsize_changes"], column_moves_observed=stats["relocations"],
+                               model_fault_states=stats["model_faults"], crash_predicted_by_L2_model=stats.get("crash_predicted_by_L2_model", []))
     ck.cov["invalid_ops_accepted_by_library_deferred_to_C07"] = stats["deferred_to_C07"]
     ck.cov["harness_crashes"] = [dict(case=c, rc=rc) for c, rc, _ in crashes]
     ck.cov["traces_validated_against_impl"] = stats["ops"]
     ck.assumptions = ["Coq kernel; extraction (ExtrOcamlBasic/ExtrOcamlString) + OCaml compiler for the reference model",
                       "h_store harness, text protocol, GMP printing of rationals", "MARKINT is a white-box set-up step (no public setter for integer marks)"]
     ck.finish(trusted_base=["coqc 8.16.1 kernel", "OCaml extraction", "harness h_store.c + ocaml/drv_store.ml + checks/C06.py, store_common.py"],
-              extra=dict(not_covered="L2 (concrete column store: matbeg/matcnt/matind relocation) is not modelled: the store internals are covered only through "
-                                     "their observable behaviour on the explored histories; LP/MPS file loading is C08-C10's area"))
+              extra=dict(not_covered="the matrix built by the LP/MPS readers (rawlp.c) is not an L2 op (file loading is C08-C10's area); rows/columns arrays other than the column store "
+                                     "(rhs, sense, bounds, names: packed by the same delete loops) are compared through the query API only"))
 
 
 main_guard(main)
